@@ -42,48 +42,72 @@ def f_all(kind, opname):
     return True
 
 
+REBASE_OPS = {'rebase_on', 'rebase'}
+POP_OPS = {'pop_front', 'pop_front_slow'}
+
+# What each property's check looks at. The rule throughout: a check demands what ITS property states and nothing else.
+#   fams     scenario families (tools/gen.py)
+#   filt     (line kind R|O, operation name) -> is this result / observation line the property's business?  It selects
+#            (a) whether the FIRST line on which the implementation deviates from the reference semantics (pyref) is a
+#            finding for this property (later deviations are consequences and are not attributed), when `pyref` is on;
+#            (b) whether the first model/implementation difference in the obs view is a broken correspondence for it.
+#   pyref    compare with the independent reference semantics at all (off where the property is relative: "unchanged by",
+#            "same as on the other map", "same as sequentially" - those have their own oracles on the implementation trace)
+#   views    structural views (shape/memo/ident/fresh) whose first model/implementation difference matters, restricted to the
+#            operations in `vops` (None = every operation)
+#   oracles  independent oracles on the implementation trace; `oops` restricts their findings to steps running these operations
+#   twin     a second run of a transformed history on the implementation itself (run-level theorems of InvisibleP.v):
+#            'hash' = all but the last root request per handle removed, 'rebase' = rebases removed, 'intra' = intra -> apply
 PROPS = {
     'C01': dict(fams=['crud', 'versions', 'suffix', 'bulk', 'big', 'rebase_pairs', 'intra'], views=['obs'],
-                oracles=['wellformed'],
+                oracles=['wellformed'], pyref=True,
                 filt=lambda k, o: not (k == 'R' and o in (ROOT_OPS | EQ_OPS | SSZ_OPS | SERDE_OPS | BUILDER_OPS)),
                 key=lambda ops: True),
     'C02': dict(fams=['crud', 'versions', 'rebase_pairs', 'intra', 'suffix', 'capacity', 'big', 'deep', 'hash_placement', 'fault'],
-                views=['obs'], oracles=[], filt=lambda k, o: k == 'R' and o in ROOT_OPS,
+                views=['obs'], oracles=[], pyref=True, filt=lambda k, o: k == 'R' and o in ROOT_OPS,
                 key=lambda ops: any(o.startswith('hash') for o in ops)),
     'C03': dict(fams=['hash_placement', 'rebase_pairs', 'intra', 'versions', 'crud', 'fault'], views=['obs', 'memo'],
-                oracles=['memo'], filt=lambda k, o: k == 'R' and o in ROOT_OPS,
+                oracles=['memo'], pyref=True, filt=lambda k, o: k == 'R' and o in ROOT_OPS, twin='hash',
                 key=lambda ops: sum(o.startswith('hash') for o in ops) >= 2),
-    'C04': dict(fams=['versions', 'rebase_pairs', 'hash_placement', 'intra'], views=['obs'], oracles=['memo'],
-                filt=lambda k, o: k == 'O' or o in ROOT_OPS | EQ_OPS,
+    'C04': dict(fams=['versions', 'rebase_pairs', 'hash_placement', 'intra'], views=['obs'], oracles=['isolation', 'memo'],
+                pyref=False, filt=lambda k, o: False,
                 key=lambda ops: any(o.startswith(('clone', 'to_vector', 'to_list', 'rebase')) for o in ops)),
-    'C05': dict(fams=['capacity', 'codec', 'bulk', 'invalid_args'], views=['obs'], oracles=['wellformed'],
-                filt=lambda k, o: k == 'O' or o in CTOR_OPS or o == 'len',
+    'C05': dict(fams=['capacity', 'codec', 'bulk', 'invalid_args'], views=['obs'], oracles=['capacity'], pyref=True,
+                filt=lambda k, o: k == 'R' and (o in CTOR_OPS or o == 'len'),
                 key=lambda ops: True),
     'C06': dict(fams=['crud', 'versions', 'rebase_pairs', 'intra', 'suffix', 'capacity', 'codec', 'bulk'],
-                views=['obs', 'shape'], oracles=['canonical'], filt=lambda k, o: k == 'R' and o in EQ_OPS,
+                views=['obs', 'shape'], oracles=['canonical'], pyref=True, filt=lambda k, o: k == 'R' and o in EQ_OPS,
                 key=lambda ops: any(o.startswith('eq') for o in ops)),
-    'C07': dict(fams=['rebase_pairs', 'versions'], views=['obs'], oracles=['canonical', 'memo'], filt=f_all,
+    'C07': dict(fams=['rebase_pairs', 'versions'], views=['obs'], oracles=['canonical', 'memo'], oops=REBASE_OPS, pyref=True,
+                filt=lambda k, o: o in REBASE_OPS, twin='rebase',
                 key=lambda ops: any(o.startswith('rebase') for o in ops)),
-    'C08': dict(fams=['rebase_pairs'], views=['obs', 'ident', 'shape'], oracles=['sharing'], filt=lambda k, o: False,
-                key=lambda ops: any(o.startswith('rebase_on') for o in ops)),
-    'C09': dict(fams=['intra', 'versions'], views=['obs', 'shape'], oracles=['canonical', 'memo'], filt=f_all,
+    'C08': dict(fams=['rebase_pairs'], views=['obs', 'ident', 'shape'], vops=REBASE_OPS, oracles=['sharing'], pyref=False,
+                filt=lambda k, o: False, key=lambda ops: any(o.startswith('rebase_on') for o in ops)),
+    'C09': dict(fams=['intra', 'versions'], views=['obs', 'shape'], vops={'intra'}, oracles=['canonical', 'memo'], oops={'intra'},
+                pyref=True, filt=lambda k, o: o == 'intra', twin='intra',
                 key=lambda ops: any(o.startswith('intra') for o in ops)),
-    'C10': dict(fams=['cost', 'crud', 'suffix', 'big'], views=['obs', 'ident', 'fresh'], oracles=['cost'],
+    'C10': dict(fams=['cost', 'crud', 'suffix', 'big'], views=['obs', 'ident', 'fresh'], oracles=['cost'], pyref=False,
+                vops={'clone', 'apply', 'pop_front', 'pop_front_slow', 'push', 'set', 'cow_into', 'cow_make', 'cow_make2', 'cow_read',
+                      'touch', 'iter_cow', 'to_vector', 'to_list', 'new_list', 'new_vec', 'list_slow', 'vec_iter', 'repeat',
+                      'repeat_slow', 'from_elem', 'empty', 'ssz_list', 'ssz_vec', 'hash', 'get', 'len', 'iter_from', 'level_iter',
+                      'eq', 'ssz_enc', 'serde_ser', 'drop', 'bulk'},
                 filt=lambda k, o: False, key=lambda ops: any(o.startswith(('apply', 'pop_front', 'clone')) for o in ops)),
-    'C11': dict(fams=['suffix', 'crud'], views=['obs', 'shape'], oracles=['canonical'],
-                filt=lambda k, o: k == 'O' or o in SUFFIX_OPS | EQ_OPS | ROOT_OPS,
+    'C11': dict(fams=['suffix', 'crud'], views=['obs', 'shape'], vops=POP_OPS, oracles=['suffix', 'canonical'], oops=SUFFIX_OPS,
+                pyref=False, filt=lambda k, o: (k == 'R' and o in SUFFIX_OPS) or (k == 'O' and o in POP_OPS),
                 key=lambda ops: any(o.split()[0] in SUFFIX_OPS for o in ops)),
-    'C12': dict(fams=['codec', 'crud', 'versions'], views=['obs'], oracles=[],
-                filt=lambda k, o: o in SSZ_OPS, key=lambda ops: any(o.split()[0] in SSZ_OPS for o in ops)),
-    'C13': dict(fams=['codec', 'crud'], views=['obs'], oracles=[],
-                filt=lambda k, o: o in SERDE_OPS, key=lambda ops: any(o.split()[0] in SERDE_OPS for o in ops)),
-    'C14': dict(fams=['crud', 'versions', 'bulk', 'suffix', 'codec'], views=['obs'], oracles=[], filt=f_all,
-                key=lambda ops: True, lockstep=True),
+    'C12': dict(fams=['codec', 'crud', 'versions'], views=['obs'], oracles=[], pyref=True,
+                filt=lambda k, o: k == 'R' and o in SSZ_OPS, key=lambda ops: any(o.split()[0] in SSZ_OPS for o in ops)),
+    'C13': dict(fams=['codec', 'crud'], views=['obs'], oracles=[], pyref=True,
+                filt=lambda k, o: k == 'R' and o in SERDE_OPS, key=lambda ops: any(o.split()[0] in SERDE_OPS for o in ops)),
+    'C14': dict(fams=['crud', 'versions', 'bulk', 'suffix', 'codec'], views=['obs'], oracles=[], pyref=False,
+                filt=lambda k, o: False, key=lambda ops: True, lockstep=True),
     'C15': dict(fams=['invalid_args', 'bulk', 'capacity', 'deep', 'codec', 'builder'], views=['obs'],
-                oracles=['wellformed', 'error_preserves'], filt=f_all, key=lambda ops: True),
-    'C16': dict(fams=['par', 'fault'], views=['obs'], oracles=['memo'], filt=lambda k, o: k == 'R' and o in ROOT_OPS,
+                oracles=['wellformed', 'error_preserves'], pyref=False, filt=lambda k, o: False, errors_only=True,
+                key=lambda ops: True),
+    'C16': dict(fams=['par', 'fault'], views=['obs'], oracles=['par'], pyref=True, par_only=True,
+                filt=lambda k, o: k == 'R' and o in ('par_hash', 'par_mix'),
                 key=lambda ops: any(o.startswith('par_') for o in ops), repeat=True),
-    'C17': dict(fams=['builder', 'builder_nodes'], views=['obs'], oracles=['builder'],
+    'C17': dict(fams=['builder', 'builder_nodes'], views=['obs'], oracles=['builder'], pyref=True,
                 filt=lambda k, o: k == 'R' and o in BUILDER_OPS,
                 key=lambda ops: any(o.startswith('b_finish') for o in ops)),
 }
@@ -353,27 +377,52 @@ def classify(line):
 
 
 def pyref_findings(prop, text, trace):
-    """mismatches of the implementation trace against the reference semantics, filtered to the property"""
+    """deviation of the implementation trace from the reference semantics, attributed to the property.
+    Only the FIRST operation at which the trace deviates is looked at (what follows is a consequence); it is a
+    finding when a deviating line of that operation is the property's business (PROPS[prop]['filt']).
+    A panic / abort / time-out is a finding for C15 wherever it happens (C16: time-outs), for the others when
+    the operation that died is relevant."""
+    spec = PROPS[prop]
     hist = pyref.parse_histories(text)[0]
     lines = [pyref.header(hist)] + trace['lines']       # shards renumber the histories
-    out = []
     try:
         mm = pyref.check_trace(hist, lines)
-    except Exception as e:          # reference could not replay: treat as no prediction
-        return [oracles.Finding(0, 'reference oracle failed to replay: %r' % (e,))] if False else []
-    filt = PROPS[prop]['filt']
+    except Exception:
+        return []                                       # reference could not replay: no prediction
+    if not mm:
+        return []
+    filt = spec['filt']
+    out = []
+    # abandonment (panic / abort / timeout) anywhere
     for m in mm:
-        ln = m.predicted or m.actual or ''
-        opname = m.op_text.split()[0] if m.op_text else ''
         act = (m.actual or '')
         if act.endswith((' panic', ' abort', ' timeout')):
             what = act.rsplit(' ', 1)[1]
-            if prop in ('C15',) or filt('R', opname) or (prop == 'C16' and what == 'timeout'):
+            opname = m.op_text.split()[0] if m.op_text else ''
+            if prop == 'C15' or (prop == 'C16' and what == 'timeout') or (m.op == mm[0].op and filt('R', opname)):
                 out.append(oracles.Finding(m.op, {'panic': 'panic in `%s`', 'abort': 'the process died (abort / stack overflow / out of memory) in `%s`',
                                                   'timeout': '`%%s` did not terminate within %d s' % HARNESS_TIMEOUT}[what] % m.op_text))
+            return out
+    if not spec.get('pyref', True):
+        return out
+    first = mm[0].op
+    if spec.get('par_only'):
+        # C16: a parallel result that differs from the reference counts only when the sequential root computations
+        # of the same history are right (otherwise hashing as such is broken: C02's business)
+        seq_bad = any((m.op_text or '').split()[:1] == ['hash'] for m in mm)
+        if seq_bad:
+            return out
+        first = next((m.op for m in mm if (m.op_text or '').split()[:1] and (m.op_text or '').split()[0] in ('par_hash', 'par_mix')), None)
+        if first is None:
+            return out
+    for m in mm:
+        if m.op != first:
             continue
+        ln = m.predicted or m.actual or ''
+        opname = m.op_text.split()[0] if m.op_text else ''
         if filt(classify(ln), opname):
             out.append(oracles.Finding(m.op, 'after `%s`: expected `%s`, got `%s`' % (m.op_text, (m.predicted or '')[:200], (m.actual or '')[:200])))
+            break
     return out
 
 
@@ -382,31 +431,115 @@ def oracle_findings(prop, text, trace):
     ops = [l for l in text.splitlines() if l and not l.startswith(('#', 'config'))]
     steps = oracles.decode(trace['lines'])
     out = []
+    oops = PROPS[prop].get('oops')
     for name in PROPS[prop]['oracles']:
         try:
-            out += oracles.ORACLES[name](cfg, ops, steps)
+            fs = oracles.ORACLES[name](cfg, ops, steps)
         except Exception as e:
-            out.append(oracles.Finding(0, 'oracle %s crashed on this trace: %r' % (name, e)))
+            fs = [oracles.Finding(0, 'oracle %s crashed on this trace: %r' % (name, e))]
+        if oops is not None and name in ('canonical', 'memo'):
+            # these two audit every state; for this property only the states right after its operations count
+            fs = [f for f in fs if 0 < f.op <= len(ops) and ops[f.op - 1].split()[0] in oops]
+        out += fs
     return out
 
 
 def correspondence(prop, text, it, mt):
-    """differences between implementation and model on the views relevant to the property"""
+    """differences between implementation and model that are this property's business: per view, the FIRST
+    differing line, if it is relevant (obs: PROPS filt; structural views: at the operations in vops)"""
     if it is None or mt is None:
-        return {'obs': (0, 'missing trace', 'missing trace')}
+        return {'obs': (0, 'missing trace', 'missing trace')}, {}
+    if mt['header'].endswith('unsupported'):
+        return {}, {}
+    spec = PROPS[prop]
     d = tracecmp.compare(it['lines'], mt['lines'])
     rel = {}
-    filt = PROPS[prop]['filt']
+    filt = spec['filt']
+    ops = [l for l in text.splitlines() if l and not l.startswith(('#', 'config'))]
     for v, (n, a, b) in d.items():
+        opname = ops[n - 1].split()[0] if 0 < n <= len(ops) else ''
         if v == 'obs':
-            ops = [l for l in text.splitlines() if l and not l.startswith(('#', 'config'))]
-            opname = ops[n - 1].split()[0] if 0 < n <= len(ops) else ''
-            if filt(classify(a if a != '<missing>' else b), opname):
+            if spec.get('errors_only'):
+                # C15: what matters is whether and how a call fails
+                if any((' err:' in x and not x.endswith(('err:pending', 'err:badreg'))) or x.endswith(' panic') for x in (a, b)) \
+                        and a.split(' ', 2)[2:] != b.split(' ', 2)[2:] and a[0] == 'R':
+                    rel[v] = (n, a, b)
+            elif filt(classify(a if a != '<missing>' else b), opname):
                 rel[v] = (n, a, b)
-        elif v in PROPS[prop]['views']:
-            rel[v] = (n, a, b)
+        elif v in spec['views']:
+            vops = spec.get('vops')
+            if vops is None or opname in vops:
+                rel[v] = (n, a, b)
     drift = {v: x for v, x in d.items() if v not in rel}
     return rel, drift
+
+
+# ------------------------------------------------------------------------------------ twin histories
+def twin_text(text, mode):
+    """(transformed history, [original op index per transformed op], [is the op itself transformed])"""
+    lines = [l for l in text.strip().split('\n') if not l.startswith('#')]
+    cfg, ops = lines[0], lines[1:]
+    if any(o.startswith('fault') for o in ops):
+        return None
+    last = {}
+    if mode == 'hash':
+        for i, o in enumerate(ops):
+            p = o.split()
+            if p[0] == 'hash':
+                last[p[1]] = i
+    out, mapping, changed = [], [], []
+    touched = False
+    for i, o in enumerate(ops):
+        p = o.split()
+        ch = False
+        if mode == 'rebase':
+            if p[0] == 'rebase_on':
+                touched = True
+                continue
+            if p[0] == 'rebase':
+                o, ch, touched = 'clone %s %s' % (p[1], p[3]), True, True
+        elif mode == 'intra':
+            if p[0] == 'intra':
+                o, ch, touched = 'apply %s' % p[1], True, True
+        elif mode == 'hash':
+            if (p[0] == 'hash' and last.get(p[1]) != i) or p[0] in ('par_hash', 'par_mix'):
+                touched = True
+                continue
+        out.append(o)
+        mapping.append(i)
+        changed.append(ch)
+    if not touched:
+        return None
+    return cfg + '\n' + '\n'.join(out) + '\n', mapping, changed
+
+
+def twin_compare(mode, orig_trace, twin_trace, mapping, changed, ops):
+    """first difference between the original run and its twin on the lines both have"""
+    a = tracecmp.by_op(orig_trace['lines'])
+    b = tracecmp.by_op(twin_trace['lines'])
+    for k, i in enumerate(mapping):
+        ao, bo = a.get(i + 1), b.get(k + 1)
+        if ao is None or bo is None:
+            if (ao is None) != (bo is None):
+                return oracles.Finding(i + 1, 'the history and its twin do not both reach `%s`' % ops[i][:80])
+            return None
+        ra, rb = ao['R'][0].split(' ', 2)[2], bo['R'][0].split(' ', 2)[2]
+        if ra in ('panic', 'abort', 'timeout') or rb in ('panic', 'abort', 'timeout'):
+            return None
+        if not changed[k] and ra != rb:
+            return oracles.Finding(i + 1, '`%s` answers `%s`, but `%s` in the same history %s' % (
+                ops[i][:80], ra[:120], rb[:120], {'hash': 'with the earlier root requests removed', 'rebase': 'without the rebases',
+                                                  'intra': 'with a plain flush in place of the self-deduplication'}[mode]))
+        if changed[k] and mode == 'intra' and ra != rb:
+            return oracles.Finding(i + 1, 'self-deduplication answered `%s` where a flush answers `%s`' % (ra[:120], rb[:120]))
+        if ao.get('O', []) != bo.get('O', []):
+            la, lb = ao.get('O', []), bo.get('O', [])
+            j = next((x for x in range(min(len(la), len(lb))) if la[x] != lb[x]), min(len(la), len(lb)))
+            return oracles.Finding(i + 1, 'after `%s` the handles show `%s`, but `%s` in the same history %s' % (
+                ops[i][:80], (la[j] if j < len(la) else '<none>')[:140], (lb[j] if j < len(lb) else '<none>')[:140],
+                {'hash': 'with the earlier root requests removed', 'rebase': 'without the rebases',
+                 'intra': 'with a plain flush in place of the self-deduplication'}[mode]))
+    return None
 
 
 _AN = None
@@ -426,12 +559,39 @@ def _analyse(i):
     return i, f, rel, bool(drift)
 
 
+def twin_findings(prop, hs, impl, tag):
+    """run the twin histories of this property on the implementation and compare; -> {index: Finding}"""
+    mode = PROPS[prop].get('twin')
+    if not mode:
+        return {}
+    jobs = []
+    for i, t in enumerate(hs):
+        if impl[i] is None or impl[i]['header'].endswith('unsupported'):
+            continue
+        tw = twin_text(t, mode)
+        if tw is not None:
+            jobs.append((i,) + tw)
+    if not jobs:
+        return {}
+    timpl, _, _ = run_all([j[1] for j in jobs], tag + '.twin', want_model=False)
+    out = {}
+    for (i, ttext, mapping, changed), tt in zip(jobs, timpl):
+        if tt is None:
+            continue
+        ops = [l for l in hs[i].splitlines()[1:] if l and not l.startswith('#')]
+        f = twin_compare(mode, impl[i], tt, mapping, changed, ops)
+        if f:
+            out[i] = f
+    return out
+
+
 # ------------------------------------------------------------------------------------ shrinking
 def violates(prop, text):
     impl, _, _ = run_all([text], 'shrink', want_model=False)
     if impl[0] is None:
         return True
-    return bool(pyref_findings(prop, text, impl[0]) or oracle_findings(prop, text, impl[0]))
+    return bool(pyref_findings(prop, text, impl[0]) or oracle_findings(prop, text, impl[0])
+                or twin_findings(prop, [text], impl, 'shrink'))
 
 
 def shrink(prop, text):
@@ -611,6 +771,12 @@ def check(prop, tier, seed):
                             k = next((x for x in range(min(len(ro[0]), len(ro[j]))) if ro[0][x] != ro[j][x]), 0)
                             findings.append((i + j, [oracles.Finding(0, 'update-map choice is observable: `%s` vs `%s`' % (
                                 ro[0][k][:160] if k < len(ro[0]) else '<end>', ro[j][k][:160] if k < len(ro[j]) else '<end>'))]))
+        twins = twin_findings(prop, hs, impl, prop)
+        have = {i for i, _ in findings}
+        for i, f in sorted(twins.items()):
+            if i not in have:
+                findings.append((i, [f]))
+        findings.sort(key=lambda x: x[0])
         if kc_future is not None:
             try:
                 kok, kbad, kout = kc_future.result()
@@ -670,10 +836,11 @@ def check(prop, tier, seed):
                 for extra in range(1, 4 if tier == 'quick' else 8):
                     more = [t for _, t in make_histories(prop, 'quick', seed + 7919 * extra)]
                     im, _, _ = run_all(more, prop + '.x%d' % extra, want_model=False)
+                    tw = twin_findings(prop, more, im, prop + '.x%d' % extra)
                     for j, t in enumerate(more):
                         if im[j] is None:
                             continue
-                        f = pyref_findings(prop, t, im[j]) + oracle_findings(prop, t, im[j])
+                        f = pyref_findings(prop, t, im[j]) + oracle_findings(prop, t, im[j]) + ([tw[j]] if j in tw else [])
                         if f and not known_match(prop, t, f[0].msg):
                             found = (t, f[0])
                             break
@@ -762,7 +929,7 @@ def replay(path):
     if impl[0] is None:
         print('harness produced no trace')
         return 1
-    f = pyref_findings(prop, text, impl[0]) + oracle_findings(prop, text, impl[0])
+    f = pyref_findings(prop, text, impl[0]) + oracle_findings(prop, text, impl[0]) + list(twin_findings(prop, [text], impl, 'replay').values())
     for x in f[:10]:
         print('  oracle: op %d: %s' % (x.op, x.msg))
     if model[0] is not None:
